@@ -70,5 +70,28 @@ func main() {
 			n++
 		}
 	}
+	n += clockSeam("internal/clock.go")
 	fmt.Printf("rewriteimports: %d files rewritten\n", n)
+}
+
+// clockSeam makes the library's internal wall clock read the simulated one (which can be stepped). The two
+// lines are replaced textually; if they are not there (the file was edited), the clock simply stays unstepped.
+func clockSeam(p string) int {
+	b, err := os.ReadFile(p)
+	if err != nil {
+		return 0
+	}
+	s := string(b)
+	a, bb := "{ return time.Since(t) }", "{ return time.Now() }"
+	if !strings.Contains(s, a) || !strings.Contains(s, bb) || !strings.Contains(s, "\t\"time\"\n") {
+		return 0
+	}
+	s = strings.Replace(s, a, "{ return simclock.Since(t) }", 1)
+	s = strings.Replace(s, bb, "{ return simclock.Now() }", 1)
+	s = strings.Replace(s, "\t\"time\"\n", "\t\"time\"\n\n\t\"github.com/bartventer/httpcache/verifsim/simclock\"\n", 1)
+	if err := os.WriteFile(p, []byte(s), 0o644); err != nil {
+		fmt.Fprintln(os.Stderr, err)
+		os.Exit(2)
+	}
+	return 1
 }
